@@ -222,6 +222,11 @@ func (p *Prog) Exec(line string) string {
 			return p.Op(line, nil, func() string { return strconv.Itoa(v(1).MantExp(nil)) })
 		}
 		return p.Op(line, []int{vi(2)}, func() string { return strconv.Itoa(v(1).MantExp(v(2))) })
+	case "bitsexp": // bitsexp x -> words exp
+		return p.Op(line, nil, func() string {
+			m, e := v(1).BitsExp()
+			return fmt.Sprintf("%s %d", wordsString(m), e)
+		})
 	case "setbitsexp": // setbitsexp z words exp
 		return p.Op(line, []int{vi(1)}, func() string { v(1).SetBitsExp(parseWords(t[2]), atoi64(t[3])); return "" })
 	case "int64":
@@ -432,7 +437,10 @@ func (p *Prog) Exec(line string) string {
 			return fmt.Sprintf("%d %d", p.ctx.Prec(), int(p.ctx.Mode()))
 		})
 	case "csetprec":
-		return p.Op(line, nil, func() string { p.ctx.SetPrec(uint(atou64(t[1]))); return fmt.Sprintf("%d %d", p.ctx.Prec(), int(p.ctx.Mode())) })
+		return p.Op(line, nil, func() string {
+			p.ctx.SetPrec(uint(atou64(t[1])))
+			return fmt.Sprintf("%d %d", p.ctx.Prec(), int(p.ctx.Mode()))
+		})
 	case "csetmode":
 		return p.Op(line, nil, func() string {
 			p.ctx.SetMode(decimal.RoundingMode(atoi(t[1])))
